@@ -82,7 +82,7 @@ def _impl_many(case):
     n, idx = case['many']['n'], case['many']['idx']
     g = np.array([[i, j, k] for i in range(n) for j in range(n) for k in range(n)], dtype=float) / n
     traj_pos = np.array([[g[i] + np.array([0.1 / (2 * n), 0, 0]) for i in idx] + [[0.5 / n, 0.5 / n, 0.5 / n]]] * 3)
-    traj = synth.make_traj(case['m'], ['Li'] * traj_pos.shape[1], traj_pos)
+    traj = synth.make_traj(case['m'], ['Li'] * traj_pos.shape[1], traj_pos, images=synth.image_seed(case))
     sites = Structure(lattice=traj.get_lattice(), species=['Li'] * len(g), coords=g, labels=['A'] * len(g))
     st = _calculate_atom_states(sites=sites, trajectory=traj, site_radius={'': case['radius']})
     inn = _calculate_atom_states(sites=sites, trajectory=traj, site_radius={'': case['radius']}, site_inner_fraction=case['frac'])
